@@ -19,7 +19,7 @@ import Babble.Proofs.HGBlocks
 namespace Babble.Props.C01
 open Babble Babble.Vote
 
-variable {W : Type} [DecidableEq W] [Fintype W]
+variable {W : Type} [DecidableEq W]
 
 /-- any two fame decisions for the same candidate agree, whatever the deciders and their rounds;
     stated for the rule written with the generated operators (`decidesAtG`) -/
